@@ -291,7 +291,8 @@ Lemma mfeed_all_unfold : forall d buf c cs, mfeed_all d buf (c :: cs) =
 Proof. reflexivity. Qed.
 
 (* (4) split invariance of the multi-packet decoder, from any decoder state and buffer *)
-Lemma mfeed_all_concat : forall cs c d buf, mfeed_all d buf (c :: cs) = mfeed_all d buf [concat (c :: cs)].
+Lemma mfeed_all_concat : forall cs c d buf,
+  mfeed_all d buf (c :: cs) = mfeed_all d buf (@cons bytes (concat (c :: cs)) nil).
 Proof.
   induction cs as [|a cs IH]; intros c d buf.
   - cbn [concat]. rewrite app_nil_r. reflexivity.
